@@ -2,125 +2,201 @@
 (***************************************************************************************)
 (* Life cycle and background tasks of a store (C17, C18): Bitcask::open spawns the       *)
 (* thread `bitcask-background-tasks` with two tasks,                                    *)
-(*   merge_on_interval: loop { select!{ sleep(interval +- jitter), shutdown.recv } ;    *)
-(*                             if can_merge() { spawn_blocking(handle.merge()) } }       *)
-(*                      (returns at once when the policy is `never`)                     *)
-(*   sync_on_interval : loop { select!{ sleep(interval), shutdown.recv } ; handle.sync() } *)
+(*   merge_on_interval: while !shutdown.is_shutdown() {                                  *)
+(*                          select!{ sleep(interval +- jitter), shutdown.recv => return } *)
+(*                          if can_merge() { spawn_blocking(handle.merge()).await } }    *)
+(*                      (returns at once when the policy is `never`; can_merge looks at   *)
+(*                      the policy's window and at the triggers, handle.merge() at the    *)
+(*                      `closed` flag; an error of the merge is logged and the loop goes  *)
+(*                      on)                                                              *)
+(*   sync_on_interval : while ... { select!{ sleep(interval), shutdown.recv => return };  *)
+(*                                  spawn_blocking(handle.sync()).await }                 *)
 (*                      (only with sync = interval)                                      *)
-(* Drop for Bitcask sets `closed` and drops the broadcast sender, which wakes both       *)
+(* Drop for Bitcask sets `closed`, then drops the broadcast sender, which wakes both      *)
 (* selects; every Handle method checks `closed` first.                                   *)
 (*                                                                                     *)
-(* Time is an explicit clock.  A timer fires exactly when it is due (time does not pass  *)
-(* a due timer), so deadlines are state invariants.  Nothing makes time advance: the    *)
-(* liveness property BgExitsWithoutTimer holds with fairness on the shutdown wake-up     *)
-(* only, which is how "even if its next timer is far away" is said in TLA+.              *)
+(* One action per await point / check of the code: the timer branch of the select         *)
+(* (MergeTimer), can_merge (MergeCheck), the closed check at the start of handle.merge     *)
+(* (MergeStart), the end of the merge (MergeDone / MergeFails), and likewise for the sync   *)
+(* task; the drop is two steps (DropStore, DropSender).                                  *)
+(*                                                                                     *)
+(* Time is an explicit clock.  A timer fires exactly when it is due and the steps between *)
+(* two awaits take no time (time does not pass a due timer, a pending check or a pending   *)
+(* wake-up), so deadlines are state invariants.  Nothing makes time advance: the liveness  *)
+(* property BgExitsWithoutTimer holds with fairness on the tasks' own steps only, which is *)
+(* how "even if its next timer is far away" is said in TLA+.  A running merge ends         *)
+(* whenever it ends (its duration is not a timer).                                        *)
 (***************************************************************************************)
 EXTENDS Naturals, Integers, TLC
 
 CONSTANTS
-    Policy,        \* "always" | "never"
+    Policy,        \* "always" | "never" | "window"
     I, J,          \* merge check interval and jitter, in ticks (a sleep lasts I-J .. I+J)
     S,             \* sync interval in ticks, 0 = no interval sync
-    MergeTime,     \* ticks a merge takes
-    MaxTime
+    Day, WinFrom, WinTo,   \* policy `window`: merges only while WinFrom <= now % Day <= WinTo
+    MaxTime,
+    \* deviations (all FALSE = the code as it is)
+    DevNoClosedCheck,      \* the background merge does not look at `closed`
+    DevTaskEndsOnError     \* the merge task returns when a merge fails
 
 VARIABLES
     now,
     open,          \* the Bitcask object is alive
     closed,        \* the flag Handle methods check
     sender,        \* the broadcast sender exists (dropped with the Bitcask object)
-    mt,            \* merge task: [st |-> "sleep", wake |-> t] | "merging" (until) | "done"
-    stt,           \* sync task likewise
+    mt,            \* merge task: [st |-> "sleep" | "woke" | "triggered" | "busy" | "done", wake, from]
+    stt,           \* sync task:  [st |-> "sleep" | "woke" | "done", wake, from]
     exited,        \* the background thread has returned
     trig,          \* some file currently exceeds a merge trigger
     crossed,       \* time the trigger was crossed (-1 = not crossed / merge started since)
     merges,        \* merges started
-    spurious,      \* a merge started although no trigger was exceeded at the check
+    spurious,      \* a merge started although can_merge was false at the check (or outside the window)
     lastSync,      \* time of the last fsync of the active file
-    effects        \* number of disk effects caused through handles after close
+    effects,       \* disk effects caused through handles after the close
+    lateWork,      \* background merges / syncs that STARTED after the close
+    dropTime,      \* when the store was dropped (-1 = not yet)
+    lastEnd        \* when the last merge ended
 
-vars == <<now, open, closed, sender, mt, stt, exited, trig, crossed, merges, spurious, lastSync, effects>>
+vars == <<now, open, closed, sender, mt, stt, exited, trig, crossed, merges, spurious, lastSync, effects,
+          lateWork, dropTime, lastEnd>>
 
-Sleep(w) == [st |-> "sleep", wake |-> w, from |-> now]
+T(st, w) == [st |-> st, wake |-> w, from |-> now]
+Sleep(w) == T("sleep", w)
 Done == [st |-> "done", wake |-> 0, from |-> 0]
+
+InWindowAt(t) == Policy # "window" \/ ((t % Day) >= WinFrom /\ (t % Day) <= WinTo)
+InWindow == InWindowAt(now)
 
 Init ==
     /\ now = 0 /\ open = TRUE /\ closed = FALSE /\ sender = TRUE
     /\ mt \in (IF Policy = "never" THEN {Done} ELSE {[st |-> "sleep", wake |-> d, from |-> 0] : d \in (I - J)..(I + J)})
     /\ stt = IF S = 0 THEN Done ELSE [st |-> "sleep", wake |-> S, from |-> 0]
     /\ exited = FALSE /\ trig = FALSE /\ crossed = -1 /\ merges = 0 /\ spurious = FALSE
-    /\ lastSync = 0 /\ effects = 0
+    /\ lastSync = 0 /\ effects = 0 /\ lateWork = 0 /\ dropTime = -1 /\ lastEnd = 0
 
 Due(t) == t.st = "sleep" /\ t.wake <= now
-Busy(t) == t.st = "busy"     \* a running merge ends whenever it ends (its duration is not a timer)
+Transient(t) == t.st \in {"woke", "triggered"}
+SeesShutdown(t) == t.st = "sleep" /\ ~sender
 
-\* time passes only when no timer is due
+\* time passes only when nothing is due or pending
 Tick ==
-    /\ now < MaxTime /\ ~Due(mt) /\ ~Due(stt)
+    /\ now < MaxTime /\ ~Due(mt) /\ ~Due(stt) /\ ~Transient(mt) /\ ~Transient(stt)
+    /\ ~SeesShutdown(mt) /\ ~SeesShutdown(stt) /\ ~(closed /\ sender)
+    /\ ~(mt = Done /\ stt = Done /\ ~sender /\ ~exited)
     /\ now' = now + 1
-    /\ UNCHANGED <<open, closed, sender, mt, stt, exited, trig, crossed, merges, spurious, lastSync, effects>>
+    /\ UNCHANGED <<open, closed, sender, mt, stt, exited, trig, crossed, merges, spurious, lastSync, effects, lateWork, dropTime, lastEnd>>
 
-\* the write pattern crosses (or stops crossing) a trigger
+\* the write pattern crosses (or stops crossing) a trigger (not in the zero time between the check and
+\* the start of a merge)
 EnvTrigger ==
-    /\ open /\ trig' = ~trig
+    /\ open /\ ~Transient(mt) /\ trig' = ~trig
     /\ crossed' = IF ~trig THEN now ELSE -1
-    /\ UNCHANGED <<now, open, closed, sender, mt, stt, exited, merges, spurious, lastSync, effects>>
+    /\ UNCHANGED <<now, open, closed, sender, mt, stt, exited, merges, spurious, lastSync, effects, lateWork, dropTime, lastEnd>>
 
-\* the sleep of the merge task is over: check the triggers
-MergeWake ==
-    /\ Due(mt) /\ sender
-    /\ IF trig /\ ~closed
-         THEN /\ mt' = [st |-> "busy", wake |-> now + MergeTime, from |-> now]
+-----------------------------------------------------------------------------------------
+(* merge task *)
+\* select!: the sleep is over (when the shutdown is ready too, select! may take either branch)
+MergeTimer ==
+    /\ Due(mt) /\ mt' = T("woke", 0)
+    /\ UNCHANGED <<now, open, closed, sender, stt, exited, trig, crossed, merges, spurious, lastSync, effects, lateWork, dropTime, lastEnd>>
+\* can_merge(): the window and the triggers (not the closed flag)
+MergeCheck ==
+    /\ mt.st = "woke"
+    /\ IF trig /\ InWindow
+         THEN mt' = T("triggered", 0)
+         ELSE \E d \in (I - J)..(I + J) : mt' = Sleep(now + d)
+    /\ UNCHANGED <<now, open, closed, sender, stt, exited, trig, crossed, merges, spurious, lastSync, effects, lateWork, dropTime, lastEnd>>
+\* spawn_blocking(handle.merge()): the closed check; a refused merge is logged and the loop goes on
+MergeStart ==
+    /\ mt.st = "triggered"
+    /\ IF closed /\ ~DevNoClosedCheck
+         THEN /\ \E d \in (I - J)..(I + J) : mt' = Sleep(now + d)
+              /\ UNCHANGED <<merges, crossed, lateWork, spurious>>
+         ELSE /\ mt' = T("busy", 0)
               /\ merges' = merges + 1 /\ crossed' = -1
-         ELSE /\ \E d \in (I - J)..(I + J) : mt' = Sleep(now + d)
-              /\ UNCHANGED <<merges, crossed>>
-    /\ UNCHANGED <<now, open, closed, sender, stt, exited, trig, spurious, lastSync, effects>>
+              /\ lateWork' = IF closed THEN lateWork + 1 ELSE lateWork
+              /\ spurious' = (spurious \/ ~trig \/ ~InWindow)
+    /\ UNCHANGED <<now, open, closed, sender, stt, exited, trig, lastSync, effects, dropTime, lastEnd>>
+\* the merge returns, with or without an error: back to the top of the loop
 MergeDone ==
-    /\ Busy(mt)
-    /\ \E d \in (I - J)..(I + J) : mt' = IF sender THEN Sleep(now + d) ELSE Done
-    /\ UNCHANGED <<now, open, closed, sender, stt, exited, trig, crossed, merges, spurious, lastSync, effects>>
-SyncWake ==
-    /\ Due(stt) /\ sender
-    /\ stt' = Sleep(now + S)
-    /\ lastSync' = IF closed THEN lastSync ELSE now
-    /\ UNCHANGED <<now, open, closed, sender, mt, exited, trig, crossed, merges, spurious, effects>>
-
-\* Drop for Bitcask
-DropStore ==
-    /\ open /\ open' = FALSE /\ closed' = TRUE /\ sender' = FALSE
-    /\ UNCHANGED <<now, mt, stt, exited, trig, crossed, merges, spurious, lastSync, effects>>
+    /\ mt.st = "busy"
+    /\ \E d \in (I - J)..(I + J) : mt' = Sleep(now + d)
+    /\ lastEnd' = now
+    /\ UNCHANGED <<now, open, closed, sender, stt, exited, trig, crossed, merges, spurious, lastSync, effects, lateWork, dropTime>>
+MergeFails ==
+    /\ mt.st = "busy"
+    /\ IF DevTaskEndsOnError THEN mt' = Done ELSE \E d \in (I - J)..(I + J) : mt' = Sleep(now + d)
+    /\ lastEnd' = now
+    \* the trigger is still exceeded: the deadline for the next attempt counts from here
+    /\ crossed' = IF trig THEN now ELSE crossed
+    /\ UNCHANGED <<now, open, closed, sender, stt, exited, trig, merges, spurious, lastSync, effects, lateWork, dropTime>>
 \* select!: shutdown.recv() completes because the sender is gone - no timer involved
 MergeSeesShutdown ==
-    /\ ~sender /\ mt.st = "sleep" /\ mt' = Done
-    /\ UNCHANGED <<now, open, closed, sender, stt, exited, trig, crossed, merges, spurious, lastSync, effects>>
+    /\ SeesShutdown(mt) /\ mt' = Done
+    /\ UNCHANGED <<now, open, closed, sender, stt, exited, trig, crossed, merges, spurious, lastSync, effects, lateWork, dropTime, lastEnd>>
+
+-----------------------------------------------------------------------------------------
+(* sync task *)
+SyncTimer ==
+    /\ Due(stt) /\ stt' = T("woke", 0)
+    /\ UNCHANGED <<now, open, closed, sender, mt, exited, trig, crossed, merges, spurious, lastSync, effects, lateWork, dropTime, lastEnd>>
+\* spawn_blocking(handle.sync()): refused when closed, otherwise the active file is forced
+SyncRun ==
+    /\ stt.st = "woke"
+    /\ stt' = Sleep(now + S)
+    /\ lastSync' = IF closed THEN lastSync ELSE now
+    /\ UNCHANGED <<now, open, closed, sender, mt, exited, trig, crossed, merges, spurious, effects, lateWork, dropTime, lastEnd>>
 SyncSeesShutdown ==
-    /\ ~sender /\ stt.st = "sleep" /\ stt' = Done
-    /\ UNCHANGED <<now, open, closed, sender, mt, exited, trig, crossed, merges, spurious, lastSync, effects>>
+    /\ SeesShutdown(stt) /\ stt' = Done
+    /\ UNCHANGED <<now, open, closed, sender, mt, exited, trig, crossed, merges, spurious, lastSync, effects, lateWork, dropTime, lastEnd>>
+
+-----------------------------------------------------------------------------------------
+(* Drop for Bitcask: handle.close(), then the fields (the sender) are dropped *)
+DropStore ==
+    /\ open /\ open' = FALSE /\ closed' = TRUE /\ dropTime' = now
+    /\ UNCHANGED <<now, sender, mt, stt, exited, trig, crossed, merges, spurious, lastSync, effects, lateWork, lastEnd>>
+DropSender ==
+    /\ closed /\ sender /\ sender' = FALSE
+    /\ UNCHANGED <<now, open, closed, mt, stt, exited, trig, crossed, merges, spurious, lastSync, effects, lateWork, dropTime, lastEnd>>
 BgExit ==
     /\ mt = Done /\ stt = Done /\ ~sender /\ ~exited /\ exited' = TRUE
-    /\ UNCHANGED <<now, open, closed, sender, mt, stt, trig, crossed, merges, spurious, lastSync, effects>>
+    /\ UNCHANGED <<now, open, closed, sender, mt, stt, trig, crossed, merges, spurious, lastSync, effects, lateWork, dropTime, lastEnd>>
 \* any Handle method after the close: fails with Closed, no effect (effects stays 0)
 HandleOpAfterClose ==
     /\ closed
     /\ UNCHANGED vars
 
-Next == Tick \/ EnvTrigger \/ MergeWake \/ MergeDone \/ SyncWake \/ DropStore \/ MergeSeesShutdown
-        \/ SyncSeesShutdown \/ BgExit \/ HandleOpAfterClose
+Next == Tick \/ EnvTrigger \/ MergeTimer \/ MergeCheck \/ MergeStart \/ MergeDone \/ MergeFails \/ MergeSeesShutdown
+        \/ SyncTimer \/ SyncRun \/ SyncSeesShutdown \/ DropStore \/ DropSender \/ BgExit \/ HandleOpAfterClose
 Spec == Init /\ [][Next]_vars
         /\ WF_vars(MergeSeesShutdown) /\ WF_vars(SyncSeesShutdown) /\ WF_vars(BgExit) /\ WF_vars(MergeDone)
+        /\ WF_vars(MergeCheck) /\ WF_vars(MergeStart) /\ WF_vars(SyncRun) /\ WF_vars(DropSender)
+        /\ WF_vars(MergeTimer) /\ WF_vars(SyncTimer)
 
 -----------------------------------------------------------------------------------------
+TypeOK ==
+    /\ mt.st \in {"sleep", "woke", "triggered", "busy", "done"} /\ stt.st \in {"sleep", "woke", "done"}
+    /\ now \in 0..MaxTime /\ merges \in Nat /\ lateWork \in Nat
 (* C18 *)
 PolicyNever == Policy = "never" => merges = 0
 NoSpuriousMerge == ~spurious
-\* once a trigger is exceeded (and stays so) a merge starts within one check interval plus jitter,
-\* counted from the crossing or, if a merge was running then, from the end of that merge
+\* while the store is open its tasks are there
+TasksAlive == open => ((Policy # "never" => mt # Done) /\ (S > 0 => stt # Done))
+\* once a trigger is exceeded (and stays so, with the window open all the while) a merge starts within one
+\* check interval plus jitter, counted from the crossing or, if a merge was running then, from its end
+Max(a, b) == IF a > b THEN a ELSE b
 TriggeredMergeDeadline ==
-    (Policy = "always" /\ open /\ trig /\ crossed >= 0 /\ mt.st = "sleep") =>
-        now <= (IF crossed > mt.from THEN crossed ELSE mt.from) + I + J
+    (Policy # "never" /\ open /\ trig /\ crossed >= 0 /\ mt.st = "sleep"
+       /\ \A t \in Max(crossed, mt.from)..now : InWindowAt(t)) =>
+        now <= Max(crossed, mt.from) + I + J
 \* with interval sync the active file is forced to disk at least once per interval while open
 IntervalSync == (S > 0 /\ open) => now - lastSync <= S
 (* C17 *)
 ClosedRejects == effects = 0
+\* no background merge or sync starts its work after the close (one that had started may finish)
+NoWorkStartsAfterClose == lateWork = 0
+\* the worker is gone at once: no time passes between the drop (or the end of a merge that was running
+\* at the drop) and its exit
+PromptExit == (~open /\ ~exited /\ mt.st # "busy") => now <= Max(dropTime, lastEnd)
 BgExitsWithoutTimer == (~open) ~> exited
 =======================================================================================
